@@ -404,6 +404,10 @@ func main() {
 	h.templates([]int{0, 1, 2, 3, 4, 10})
 	lap("templates")
 
+	// 3b. the tail flag over all forms of the generator: every position, every pair, a sample of triples
+	h.sites(rng, thorough)
+	lap("sites")
+
 	// 4. the function's own name rebound (known finding tco-by-name): the model names the deviation
 	for i, mk := range shadowPrograms {
 		for _, d := range []int{0, 1, 2, 3} {
@@ -413,6 +417,18 @@ func main() {
 		}
 	}
 
+	// failures of the `site` family on paths through a position listed as a known leak are kept apart
+	// (the check decides whether the generated table explains them), so that they cannot crowd out others
+	var leakFailures, other []Failure
+	for _, f := range h.failures {
+		if strings.HasPrefix(f.Shape, "site:") && (strings.Contains(f.Shape, "PDefLhs") || strings.Contains(f.Shape, "PSetLhs") || strings.Contains(f.Shape, "PIncludeNonLastFile")) {
+			leakFailures = append(leakFailures, f)
+		} else {
+			other = append(other, f)
+		}
+	}
+	h.failures = other
+	h.out.Extra["leak_failures"] = leakFailures
 	sort.SliceStable(h.failures, func(i, j int) bool { return h.failures[i].Size < h.failures[j].Size })
 	if len(h.failures) > 40 {
 		h.info["failures_total"] = len(h.failures)
@@ -448,6 +464,15 @@ func replay(h *Harness, path string) {
 		}
 	}
 	src := f.Failure.Source
+	if strings.HasPrefix(f.Failure.Shape, "site:") {
+		siteSource(strings.Split(f.Failure.Shape[5:], "/"), false) // writes the include files again
+	}
+	if src == "" && strings.HasPrefix(f.Failure.Shape, "site:") {
+		d, _ := siteSource(strings.Split(f.Failure.Shape[5:], "/"), false)
+		k, _ := countGotos(h.run.Env, d)
+		fmt.Printf("goto 0 instructions in the bytecode of f: %d\n", k)
+		src = d + fmt.Sprintf(" (f %d 0 0)", f.Failure.Depth)
+	}
 	if src == "" {
 		if strings.HasPrefix(f.Failure.Shape, "escape:") {
 			src = EscapeProgram(f.Failure.Shape[7:], f.Failure.Depth).Source(r.Style{})
